@@ -58,6 +58,32 @@ def external_cases(pool):
                     bb = b_.replace("&", "")
                     texts.append(("ext:mod-div/" + tt, "A# = %s\r\nB# = %s\r\nLA& = A#\r\nLB& = B#\r\nT%s = LA& %s LB&\r\nPRINT \"ok\"\r\n" % (aa, bb, sf, op), ""))
     texts.append(("ext:float-overflow/mixed", 'A# = 10\r\nFOR I% = 1 TO 60\r\n  A# = A# * 10\r\nNEXT\r\nB! = A#\r\nC! = 1\r\nC! = C! * A#\r\nPRINT "ok"\r\n', ""))
+    # DOUBLE values beyond the SINGLE range (both signs, and the largest that fits) through every storing route into a SINGLE
+    grow = 'D# = 10\r\nFOR I% = 1 TO 40\r\n  D# = D# * 10\r\nNEXT\r\n'
+    fits = 'D# = 340282346638528859811704183484516925440#\r\n'
+    typ = 'TYPE NUMS\r\n  FS AS SINGLE\r\nEND TYPE\r\n'
+    for nm, mk in (("big", grow), ("fits", fits)):
+        for sg in ("", "-"):
+            for route, body in (("let", "S! = %sD#"), ("elem", "DIM A!(2)\r\nA!(1) = %sD#"), ("field", "DIM R AS NUMS\r\nR.FS = %sD#"),
+                                ("byval", "P (%sD#)"), ("result", "E# = %sD#\r\nS! = F!(E#)"), ("for", "FOR S! = %sD# TO 1\r\nNEXT"),
+                                ("expr", "S! = 1\r\nS! = S! + %sD#"), ("swapless", "E# = %sD#\r\nS! = E# * 1"), ("lset", "S! = CSNG(%sD#)")):
+                t = (typ if route == "field" else "") + mk + (body % sg) + '\r\nPRINT "ok"\r\n'
+                if route == "byval":
+                    t += 'SUB P(X!)\r\nY! = X!\r\nEND SUB\r\n'
+                if route == "result":
+                    t += 'FUNCTION F!(X#)\r\nF! = X#\r\nEND FUNCTION\r\n'
+                texts.append(("ext:double-to-single/%s%s/%s" % (sg, nm, route), t, ""))
+    # a variable / function result / array element of every type that is never given a value: a zero of its own type
+    for tt, sf in SFX.items():
+        use = 'T%s = X%s\r\nDIM A%s(2)\r\nA%s(1) = X%s\r\nT%s = T%s + 32767\r\nT%s = T%s + 1\r\nPRINT "ok"\r\n' % ((sf,) * 9)
+        texts.append(("ext:never-assigned/jumped-dim/" + tt, 'GOTO Later\r\nDIM X%s\r\nLater:\r\n' % sf + use, ""))
+        texts.append(("ext:never-assigned/jumped-dim-as/" + tt, 'GOTO Later\r\nDIM X AS %s\r\nLater:\r\nT%s = X\r\nT%s = T%s + 32767\r\nT%s = T%s + 1\r\nPRINT "ok"\r\n'
+                      % (({"I": "INTEGER", "L": "LONG", "S": "SINGLE", "D": "DOUBLE"}[tt],) + (sf,) * 5), ""))
+        texts.append(("ext:never-assigned/plain/" + tt, use, ""))
+        for early in ("", "EXIT FUNCTION\r\n", "IF N%% > 0 THEN EXIT FUNCTION\r\nNA%s = N%%\r\n" % sf):
+            texts.append(("ext:never-assigned/function/" + tt, use.replace("X" + sf, "NA%s(5)" % sf) + 'FUNCTION NA%s(N%%)\r\n%sEND FUNCTION\r\n' % (sf, early), ""))
+        texts.append(("ext:never-assigned/param-local/" + tt, 'P\r\nPRINT "ok"\r\nSUB P\r\nT%s = X%s\r\nT%s = T%s + 32767\r\nT%s = T%s + 1\r\nEND SUB\r\n' % ((sf,) * 6), ""))
+        texts.append(("ext:never-assigned/static/" + tt, 'P\r\nP\r\nPRINT "ok"\r\nSUB P STATIC\r\nT%s = X%s\r\nT%s = T%s + 32767\r\nT%s = T%s + 1\r\nEND SUB\r\n' % ((sf,) * 6), ""))
     reqs = [{"op": "run", "text": t, "stdin": si, "budget": 100000, "dump_final": True, "dumps": True, "max_dumps": 20} for _, t, si in texts]
     resps = pool.map(reqs, timeout=30.0)
     out = []
